@@ -1,5 +1,6 @@
 import Orb.Proto
 import Orb.Core
+import Orb.Heap
 import Generated.Params
 
 /-! Driver for C06 (Clone / Equal / Bound / Reverse / Orientation). -/
@@ -232,6 +233,118 @@ def handleOrient (inp out : Toks) : String :=
       if mI == 0 then "ok degenerate" else "ok orient"
     | _ => "bad output"
 
+
+/-! ### alias structure: the heap model `Orb.Heap` against the real backing arrays -/
+
+/-- every point slice of a value, in traversal order (= the order of `Heap.footprint`) -/
+partial def slicesOf : Geom UInt64 → List (List (Pt UInt64))
+  | .multiPoint p | .lineString p | .ring p => [p]
+  | .multiLineString ls | .polygon ls => ls
+  | .multiPolygon ps => ps.flatten
+  | .collection gs => gs.flatMap slicesOf
+  | _ => []
+
+/-- headers of a value whose j-th point slice (traversal order) is array `ids[j]` -/
+partial def toHeap : Geom UInt64 → List Nat → Heap.HGeom UInt64 × List Nat
+  | .point p, ids => (.point p, ids)
+  | .bound a b, ids => (.bound a b, ids)
+  | .multiPoint _, ids => (.multiPoint ids.head!, ids.drop 1)
+  | .lineString _, ids => (.lineString ids.head!, ids.drop 1)
+  | .ring _, ids => (.ring ids.head!, ids.drop 1)
+  | .multiLineString ls, ids => (.multiLineString (ids.take ls.length), ids.drop ls.length)
+  | .polygon ls, ids => (.polygon (ids.take ls.length), ids.drop ls.length)
+  | .multiPolygon ps, ids =>
+    let r := ps.foldl (fun (acc : List (List Nat) × List Nat) pg =>
+      (acc.1 ++ [acc.2.take pg.length], acc.2.drop pg.length)) ([], ids)
+    (.multiPolygon r.1, r.2)
+  | .collection gs, ids =>
+    let r := gs.foldl (fun (acc : List (Heap.HGeom UInt64) × List Nat) g =>
+      let h := toHeap g acc.2
+      (acc.1 ++ [h.1], h.2)) ([], ids)
+    (.collection r.1, r.2)
+
+/-- name array ids by small integers in order of first occurrence (what the Go side prints for pointers) -/
+def canonIds (ids : List Nat) : List Nat :=
+  (ids.foldl (fun (acc : List (Nat × Nat) × List Nat) a =>
+    match acc.1.lookup a with
+    | some n => (acc.1, acc.2 ++ [n])
+    | none => ((a, acc.1.length) :: acc.1, acc.2 ++ [acc.1.length])) ([], [])).2
+
+def showNats (l : List Nat) : String := l.foldl (fun s n => s ++ " " ++ toString n) (toString l.length)
+
+def sentinelPt : Pt UInt64 := ⟨0x4197d78400000000, 0xc197d78400000000⟩
+
+/-- `alias <g> k s_0 … s_{k-1} j i => <orig> <clone> no c… nc c… ovOC ovCC indep <write-orig> <write-clone>` -/
+def handleAlias (inp out : Toks) : String :=
+  match (do
+    let (g, t) ← geom inp
+    let (slots, t) ← counted nat t
+    let (j, t) ← nat t
+    let (i, _) ← nat t
+    pure (g, slots, j, i)) with
+  | none => "bad input"
+  | some (g, slots, j, i) =>
+    let σ : Heap.Store UInt64 := slicesOf g
+    if slots.length != σ.length || !((slots.zipIdx).all fun (s, ix) => s ≤ ix && slots.getD s 0 == s) then "bad slots" else
+    if out == ["panic"] then "propfail panic" else
+    -- the model: original headers, the clone call, footprints, one write through either side
+    let hg := (toHeap g slots).1
+    let r := Heap.clone σ hg
+    let σ' := r.1
+    let hc := r.2
+    let fo := Heap.footprint hg
+    let fc := Heap.footprint hc
+    let ne (a : Nat) : Bool := !(Heap.read σ' a).isEmpty
+    let cls := canonIds (fo.filter ne ++ fc.filter ne)
+    let no := (fo.filter ne).length
+    let vo := Heap.denote σ' hg
+    let vc := Heap.denote σ' hc
+    let probe (fp : List Nat) : String :=
+      if j < fp.length && i < (Heap.read σ' (fp.getD j 0)).length then
+        let σw := Heap.write σ' (fp.getD j 0) i sentinelPt
+        showGeom (Heap.denote σw hg) ++ " " ++ showGeom (Heap.denote σw hc)
+      else "nowrite"
+    let model := showGeom vo ++ " " ++ showGeom vc ++ " " ++ showNats (cls.take no) ++ " " ++ showNats (cls.drop no) ++
+      " 0 0 1 " ++ probe fo ++ " " ++ probe fc
+    let agree := splitLine model == out
+    let fin (s : String) : String := if s.startsWith "propfail" || agree then s else "diff " ++ model
+    -- the implementation's outcome
+    match (do
+      let (go, t) ← geom out
+      let (gc, t) ← geom t
+      let (co, t) ← counted nat t
+      let (cc, t) ← counted nat t
+      let (ovOC, t) ← nat t
+      let (ovCC, t) ← nat t
+      let (indep, t) ← nat t
+      let (w1, t) ← (match t with
+        | "nowrite" :: t => some (none, t)
+        | t => do let (a, t) ← geom t; let (b, t) ← geom t; pure (some (a, b), t))
+      let (w2, t) ← (match t with
+        | "nowrite" :: t => some (none, t)
+        | t => do let (a, t) ← geom t; let (b, t) ← geom t; pure (some (a, b), t))
+      if t != [] then none else
+      pure (go, gc, co, cc, ovOC, ovCC, indep, w1, w2)) with
+    | none => "bad output"
+    | some (go, gc, co, cc, ovOC, _ovCC, indep, w1, w2) =>
+      fin <|
+      -- executable statement on the implementation's outcome: the clone has the original's value …
+      if showGeom go != showGeom gc then "propfail clone-differs" else
+      -- … no array of the clone is (or overlaps) an array of the original …
+      if cc.any (fun n => co.contains n) || ovOC != 0 then "propfail clone-shares-memory arrays" else
+      -- … and mutating either leaves the other unchanged (every vertex: `indep`; the probed vertex: values)
+      if indep != 1 then "propfail clone-shares-memory mutation" else
+      if (match w1 with | some (_, c1) => showGeom c1 != showGeom gc | none => false) then
+        "propfail clone-shares-memory write-original" else
+      if (match w2 with | some (o2, _) => showGeom o2 != showGeom go | none => false) then
+        "propfail clone-shares-memory write-clone" else
+      -- the model's own prediction, evaluated (theorems clone_fresh / clone_denote on this instance)
+      if !(fc.all fun a => σ.length ≤ a && !fo.contains a) || fc.eraseDups.length != fc.length then "diff model-not-fresh" else
+      if no == 0 then "ok triv-alias-noarrays" else
+      let shared := (fo.filter ne).eraseDups.length != no
+      let wr := if w1.isSome then "-write" else ""
+      if shared then s!"ok alias-shared-original{wr}" else s!"ok alias-plain{wr}"
+
 def handle (ts : Toks) : String :=
   match ts with
   | op :: rest =>
@@ -242,6 +355,7 @@ def handle (ts : Toks) : String :=
     | "bounds" => handleBounds inp out
     | "rev" => handleRev inp out
     | "orient" => handleOrient inp out
+    | "alias" => handleAlias inp out
     | _ => "bad op " ++ op
   | [] => "bad empty"
 
